@@ -179,7 +179,7 @@ def shard_main(pid, tier, seed, i, n):
     acc = Acc()
     cov = None
     try:
-        if pid.upper() in ('C03', 'C07', 'C09', 'C11', 'C12', 'C17'):
+        if pid.upper() in ('C03', 'C07', 'C09', 'C11', 'C12', 'C13', 'C17', 'C18'):
             os.environ['VF_SCHED_IMPORT'] = '1'      # locks lomond creates at import time become scheduler-aware
         cov = _start_line_monitor(os.path.join(os.path.realpath(os.environ.get('LOMOND_SRC', '/repo')), 'lomond'))
         from . import env  # noqa  (imports lomond from the tree under test)
@@ -505,7 +505,7 @@ def _static_meta(path):
 
 
 def replay_main(pid, path):
-    if pid.upper() in ('C03', 'C07', 'C09', 'C11', 'C12', 'C17'):
+    if pid.upper() in ('C03', 'C07', 'C09', 'C11', 'C12', 'C13', 'C17', 'C18'):
         os.environ['VF_SCHED_IMPORT'] = '1'
     from . import env  # noqa
     mod = importlib.import_module('vf.props.' + pid.lower())
